@@ -222,6 +222,13 @@ def generate(streams: Streams, tier: str, index: int) -> dict:
             for k in ("threshold", "minimal_radius", "modes", "refine_args", "interface_width"):
                 opts.pop(k, None)
             opts["method"] = rng.choice(["overlap", "distance"])
+    if rng.random() < 0.15:
+        # single-precision fields: every path must analyse the very same numbers
+        for f in frames + (live_field or []):
+            f["dtype"] = "float32"
+    if system == "refine":
+        # the candidates may come in any iterable, also a one-shot one
+        opts["cands_as"] = rng.choice(["list", "list", "tuple", "generator", "emulsion", "iter"])
     case = {"system": system, "frames": frames, "times": times, "options": opts,
             "schedules": gen_schedules(srng, tasks, n_sample, 0.35), "tasks_expected": tasks}
     if live_field:
@@ -269,6 +276,21 @@ def _build_call(case: dict, share_inputs: bool = False):
             return locate_droplets(f0, refine=True, num_processes=n, **kw)
     elif system == "refine":
         perturb = opts.pop("perturb", 0.0)
+        cands_as = opts.pop("cands_as", "list")
+
+        def container(ds):
+            if cands_as == "tuple":
+                return tuple(ds)
+            if cands_as == "generator":
+                return (d for d in ds)
+            if cands_as == "iter":
+                return iter(ds)
+            if cands_as == "emulsion":
+                try:
+                    return droplets.Emulsion(ds, copy=False)
+                except Exception:
+                    return ds
+            return ds
         shuffle_seed = opts.pop("shuffle_seed", 0)
         modes = opts.pop("modes", 0)
         ra = opts.pop("refine_args", None) or {}
@@ -292,9 +314,9 @@ def _build_call(case: dict, share_inputs: bool = False):
                 # because the serial path refines diffuse candidates in place (C15 does not
                 # say whether candidates are preserved, so a mutated candidate list is not
                 # "the same input")
-                return refine_droplets(f0, [c.copy() for c in cands], num_processes=n,
+                return refine_droplets(f0, container([c.copy() for c in cands]), num_processes=n,
                                        **shared_ra)
-            return refine_droplets(f0, [c.copy() for c in cands],
+            return refine_droplets(f0, container([c.copy() for c in cands]),
                                    num_processes=n, **copy.deepcopy(ra))
     elif system == "from_storage":
         shared_kw = {k: copy.deepcopy(v) for k, v in opts.items()}
@@ -577,6 +599,11 @@ def evidence_extra(records) -> dict:
 
 
 def shrink(case: dict):
+    if any(f.get("dtype") for f in case["frames"]):
+        yield {**case, "frames": [{k: v for k, v in f.items() if k != "dtype"} for f in case["frames"]],
+               "live_field": [{k: v for k, v in f.items() if k != "dtype"} for f in case.get("live_field", [])]}
+    if case["options"].get("cands_as", "list") != "list":
+        yield {**case, "options": {**case["options"], "cands_as": "list"}}
     if case.get("live_field"):
         yield {k: v for k, v in case.items() if k != "live_field"}
         if len(case["live_field"]) > 1:
